@@ -46,3 +46,7 @@ def define(M):
     M("C06", "markclass_clash_decided_per_glyph_again", "Lib/ufo2ft/featureWriters/markFeatureWriter.py",
       "            if self._markClassClashes(\n                currentClasses.get(className), glyphAnchorPairs\n            ):",
       "            if False:")
+    # C10: regression mutant of the repaired defect (faddc87)
+    M("C10", "sub_space_default_not_kept_among_needed_sources", "Lib/ufo2ft/_compilers/baseCompiler.py",
+      "                if subDocDefault is not None:\n                    sourcesToCompile.add(subDocDefault.name)",
+      "                if subDocDefault is not None:\n                    pass")
